@@ -33,6 +33,9 @@ type c08Scenario struct {
 	noContinue bool // ... and the peer never says "100 Continue" (the timeout sends the body)
 	interval   time.Duration
 	midSleep   time.Duration // inject this long after the retry wait began (instead of at its start)
+	ctxVia     string        // how the context gets onto the request: "" = SetContext before the call,
+	// "middleware" = installed by a client-level OnBeforeRequest middleware on every attempt, "hook" =
+	// installed by a retry hook (from the first retry wait on: only points from sleepStart on are injected)
 }
 
 type c08Peer interface {
@@ -299,7 +302,19 @@ func c08Exec(sc c08Scenario, kind string, trigger int, timeoutFlavour bool, clie
 				}
 			}})
 		}
-		rq.SetContext(cctx)
+		switch sc.ctxVia {
+		case "middleware":
+			c.OnBeforeRequest(func(_ *Client, r *Request) error {
+				if atomic.LoadInt32(&mainActive) == 1 {
+					r.SetContext(cctx)
+				}
+				return nil
+			})
+		case "hook":
+			rq.AddRetryHook(func(resp *Response, _ error) { resp.Request.SetContext(cctx) })
+		default:
+			rq.SetContext(cctx)
+		}
 		method := "GET"
 		if sc.expect > 0 {
 			rq.SetHeader("Expect", "100-continue")
@@ -649,6 +664,77 @@ func c08Line(o c08Obs) (line, impl string) {
 	return
 }
 
+// c08H3Line renders an HTTP/3 script observation for the driver lane c08h3life (`Req/Pool/CancelH3.lean`):
+// the trace of model events / steps that leads to the injection point, and what was observed afterwards.
+// Only points the stream-level model speaks about: from the request head on, no retries, no
+// "Expect: 100-continue", no peer-side points (the client may not have processed them yet).
+func c08H3Line(o c08Obs) (line, impl string) {
+	sc := o.sc
+	if sc.proto != "h3" || !o.fired || o.hung || sc.maxRetries > 0 || sc.expect > 0 || sc.waitConn {
+		return "", ""
+	}
+	tr := []string{"ev:hsDone", "ev:streamOpen", "act:cSendHdr"}
+	chunks := func(n int) {
+		for i := 0; i < n; i++ {
+			tr = append(tr, "act:uRead", "ev:credit")
+		}
+	}
+	upDone := func() {
+		if sc.up > 0 {
+			chunks(sc.up)
+			tr = append(tr, "act:uEOF", "act:uClose", "act:uFin")
+		}
+	}
+	afterResp := false
+	nm := o.firedNm
+	switch {
+	case nm == "wroteHdr":
+	case strings.HasPrefix(nm, "wrote#"):
+		var i int
+		fmt.Sscanf(nm, "wrote#%d", &i)
+		chunks(i + 1)
+	case nm == "wroteLast":
+		upDone()
+	case nm == "gotHeaders" || strings.HasPrefix(nm, "gotBody#"):
+		upDone()
+		tr = append(tr, "ev:peerHeaders", "act:cRespOk")
+		afterResp = true
+	default:
+		return "", ""
+	}
+	want := o.kind
+	ret, read := o.res, "-"
+	if afterResp {
+		ret, read = "resp", o.res
+		if read == want {
+			read = "h3cancel" // (relabelled by net/http's cancelTimerBody under Client.Timeout: same meaning)
+		}
+	}
+	closes := 0
+	switch o.body {
+	case "none", "open":
+	case "closed1":
+		closes = 1
+	default:
+		fmt.Sscanf(o.body, "closed%d", &closes)
+	}
+	upl := "gone"
+	for _, g := range o.leak {
+		if strings.Contains(g, "sendRequestBody") {
+			upl = "parked"
+		}
+	}
+	hasBody := 0
+	if sc.up > 0 {
+		hasBody = 1
+	}
+	// rst (our send side reset) is not observed by the script peer; its request context ending = our
+	// receive side stopped
+	impl = fmt.Sprintf("ret=%s;read=%s;closes=%d;upl=%s;rst=?;stop=%s", ret, read, closes, upl, o.rst)
+	line = fmt.Sprintf("c08h3life %d %s %s %s", hasBody, strings.Join(tr, ","), want, impl)
+	return
+}
+
 func c08Scenarios(proto string) []c08Scenario {
 	iv := time.Duration(verifh.N(150, 300)) * time.Millisecond
 	l := []c08Scenario{
@@ -661,6 +747,11 @@ func c08Scenarios(proto string) []c08Scenario {
 		{name: "retry-upload", proto: proto, up: 2, down: 1, failFirst: 1, maxRetries: 1, interval: iv},
 		// rare but legal: a negative retry count = retry without limit
 		{name: "retry-unlimited", proto: proto, down: 1, failFirst: 2, maxRetries: 9, unlimited: true, interval: iv / 3},
+		// rare but legal: the context is not on the request when the call starts — a client-level
+		// middleware binds every request to an application context / a retry hook gives the attempts
+		// that follow a context of their own
+		{name: "retry-ctx-middleware", proto: proto, down: 1, failFirst: 1, maxRetries: 1, interval: iv, ctxVia: "middleware"},
+		{name: "retry-ctx-hook", proto: proto, down: 1, failFirst: 2, maxRetries: 2, interval: iv, ctxVia: "hook"},
 	}
 	// rare but legal: "Expect: 100-continue" — after the request head the transport holds the body
 	// back until the peer says "100 Continue" (or ExpectContinueTimeout, far beyond the promptness
@@ -758,6 +849,12 @@ func c08ScriptLane(t *testing.T, proto string, lane string) {
 			human += " FAILED: " + strings.Join(failed, ", ")
 		}
 		s.Case(line, impl, ok, class, true, human)
+		if h3line, h3impl := c08H3Line(o); h3line != "" {
+			// the same observation seen by the HTTP/3 lifecycle model (program counters of caller,
+			// watcher and upload goroutine): the outcome must be one the model reaches
+			count("h3life")
+			s.Case(h3line, h3impl, ok, class, true, human)
+		}
 	}
 	for _, sc := range c08Scenarios(proto) {
 		if hung {
@@ -810,6 +907,19 @@ func c08ScriptLane(t *testing.T, proto string, lane string) {
 			}
 			if sc.waitConn {
 				picks = []int{0}
+			}
+			if sc.ctxVia == "hook" {
+				// the context exists from the first retry hook on
+				picks = nil
+				first := -1
+				for k, nm := range dry.injNames {
+					if nm == "sleepStart" && first < 0 {
+						first = k
+					}
+					if first >= 0 && (verifh.Thorough() || nm == "sleepStart" || k == n-1) {
+						picks = append(picks, k)
+					}
+				}
 			}
 			for _, k := range picks {
 				if hung {
@@ -866,19 +976,25 @@ func c08ScriptLane(t *testing.T, proto string, lane string) {
 		if verifh.Thorough() {
 			kinds = append(kinds, "deadline")
 		}
-		for _, kind := range kinds {
-			// injectable events: start, dialStart, dialDone, [hsDone,] delivered, wroteHdr, sleepStart, …
-			idx := 5
-			if proto == "h2" {
-				idx = 6
+		for _, via := range []string{"", "middleware", "hook"} {
+			for _, kind := range kinds {
+				// injectable events: start, dialStart, dialDone, [hsDone,] delivered, wroteHdr, sleepStart, …
+				idx := 5
+				if proto == "h2" {
+					idx = 6
+				}
+				sc.ctxVia = via
+				o := c08Exec(sc, kind, idx, false, 0)
+				if o.firedNm != "sleepStart" || o.early {
+					count("midsleep-inconclusive")
+					continue
+				}
+				count("midsleep")
+				if via != "" {
+					count("midsleep-ctx-" + via)
+				}
+				record0(o, fmt.Sprintf("%s/retry-midsleep%s/%s", proto, via, kind), 0)
 			}
-			o := c08Exec(sc, kind, idx, false, 0)
-			if o.firedNm != "sleepStart" || o.early {
-				count("midsleep-inconclusive")
-				continue
-			}
-			count("midsleep")
-			record0(o, fmt.Sprintf("%s/retry-midsleep/%s", proto, kind), 0)
 		}
 	}
 	must := []string{"dry-ok", "point=dialStart", "point=dialDone", "point=wroteHdr", "point=wrote", "point=wroteLast",
@@ -886,11 +1002,11 @@ func c08ScriptLane(t *testing.T, proto string, lane string) {
 	must = append(must, "client-timeout")
 	switch proto {
 	case "h1":
-		must = append(must, "conn=new", "point=getConn", "midsleep", "point=delivered")
+		must = append(must, "conn=new", "point=getConn", "midsleep", "midsleep-ctx-middleware", "midsleep-ctx-hook", "point=delivered")
 	case "h2":
 		must = append(must, "point=hsDone", "rst-seen", "point=delivered")
 	case "h3":
-		must = append(must, "rst-seen")
+		must = append(must, "rst-seen", "h3life")
 	}
 	if hung {
 		must = nil // the lane stopped at the first call that never returned (reported above)
